@@ -899,8 +899,9 @@ EvalBody(node, cx, st) ==
                          ELSE Construct(Site(a.st, cx, CallSite(node)), fv.v, a.l)
       [] node.k = "eval" ->                                                   \* 15.1.2.1, 10.4.2
             \* direct: the caller's context; indirect: the global context
-            \* stack depth: a direct eval runs in the caller's context; an indirect one is a native
-            \* call that then enters the global context (two levels)
+            \* stack depth: a direct eval runs in the caller's context but is one nesting level (eval code
+            \* that evals itself must run into the limit); an indirect one is a native call that then
+            \* enters the global context (two levels)
             \* call stack (C19): eval(...) is a call whose site is the eval expression.  A direct eval runs
             \* the eval code in the caller's frame, whose positions are then looked up in the eval source
             \* (D19_eval_leaves_frame_file: otto never switches the frame's file back);
@@ -917,7 +918,7 @@ EvalBody(node, cx, st) ==
             LET EvalCode(direct, st0) ==
                 LET ecx == IF direct THEN [cx EXCEPT !.file = FileOf(node)]
                            ELSE [lex |-> GlobalEnv, var |-> GlobalEnv, this |-> ObjV(GlobalObj), file |-> FileOf(node)]
-                    extra == IF direct THEN 0 ELSE 2
+                    extra == IF direct THEN 1 ELSE 2
                     stS == Site(st0, cx, IF ~direct /\ D("D19_nonref_callee_site_dropped") THEN -1 ELSE Pos(node))
                     stE == IF direct
                            THEN (IF Bad(node) = "" THEN [stS EXCEPT !.fr[Len(stS.fr)].file = FileOf(node)] ELSE stS)
